@@ -1,6 +1,7 @@
 CONSTANTS MaxOps = 3
           ResyncOnChange = FALSE
+          LintMemo = FALSE
 INIT JInit
 NEXT JNext
-INVARIANTS CloneBehavesTheSame ImportedWordsAccepted IgnoredStayHidden
+INVARIANTS CloneBehavesTheSame ImportedWordsAccepted IgnoredStayHidden AnswerIsCurrent
 CHECK_DEADLOCK FALSE
